@@ -312,3 +312,55 @@ pub mod derived_dummy {
         }
     }
 }
+
+pub mod native_dummy {
+    //! The pattern of the repository's upgrader test dummy: owner-gated
+    //! `upgrade` that swaps the code and nothing else; version 0.1.0.  Its
+    //! upgrade target is the repository's pre-built `dummy.wasm` (0.2.0,
+    //! `migrate(String)`).
+    use axelar_soroban_std::interfaces;
+    use axelar_soroban_std::interfaces::{OwnableInterface, UpgradableInterface};
+    use soroban_sdk::{contract, contractimpl, Address, BytesN, Env};
+
+    #[contract]
+    pub struct NativeDummy;
+
+    #[contractimpl]
+    impl UpgradableInterface for NativeDummy {
+        fn version(env: &Env) -> soroban_sdk::String {
+            soroban_sdk::String::from_str(env, "0.1.0")
+        }
+        fn upgrade(env: &Env, new_wasm_hash: BytesN<32>) {
+            Self::owner(env).require_auth();
+            env.deployer().update_current_contract_wasm(new_wasm_hash);
+        }
+    }
+
+    #[contractimpl]
+    impl OwnableInterface for NativeDummy {
+        fn owner(env: &Env) -> Address {
+            interfaces::owner(env)
+        }
+        fn transfer_ownership(env: &Env, new_owner: Address) {
+            interfaces::transfer_ownership::<Self>(env, new_owner);
+        }
+    }
+
+    #[contractimpl]
+    impl NativeDummy {
+        pub fn __constructor(env: Env, owner: Address) {
+            interfaces::set_owner(&env, &owner);
+        }
+    }
+}
+
+pub mod mirror_keys {
+    //! Mirror of the interfaces' private storage key for the migration window
+    //! (same variant name, hence the same ledger key).
+    #![allow(non_camel_case_types)]
+    use soroban_sdk::contracttype;
+    #[contracttype]
+    pub enum DataKey {
+        Interfaces_Migrating,
+    }
+}
